@@ -111,6 +111,27 @@ PROPS["C03"] = {
     "explanation": "modular use of ws2d's contract; ghost lemmas sum01_is_count / cntpos_same; IRLS loop cut at an invariant",
 }
 
+def _c14_contracts():
+    import contracts.c14 as c14
+    return c14.DEFAULTS + c14.CHECKED
+
+
+PROPS["C14"] = {
+    "modules": ["contracts.c14"],
+    "contracts_fn": _c14_contracts,
+    "standin": True,
+    "level": "proof",
+    "trusted": ["z3 5.1 / cvc5 1.0.3", "numpy shape semantics of zeros/ones/full/copy/arange(literal grids)/element-wise ops/boolean masks/where/unique (assumed contracts)",
+                "Numba's negative-index wrap-around for basic indexing (ws2d with n = 2, 3 reads m-3 = -2/-1)",
+                "call-site contract ws2d[idx] (N >= 2) is the union of three discharged variants: ws2d (N >= 4, symbolic), ws2d[n2], ws2d[n3]",
+                "gufunc layout signatures guarantee the stated shape equalities on entry"],
+    "not_proved": ["division/overflow are not part of C14 (see C08/C16/C18)", "compiled code vs source (C13): covered only by the NUMBA_BOUNDSCHECK=1 stand-in"],
+    "assumptions": ["index abstraction: float values are irrelevant; integers mathematical"],
+    "level_text": "all 35 kernels: every subscript, slice, element-wise shape agreement, callee shape precondition and (for gufunc outputs) written-ness obligation generated from the real AST under the documented preconditions is discharged by z3 for all sizes (ws2d additionally executed concretely for n = 2, 3 where negative indices wrap); loops without data-dependent cursors are cut with the empty invariant, cursor variables (k, ix, jj, kk, ngood) carry explicit invariants",
+    "level_note": "trusted: z3/cvc5; assumed numpy shape contracts; Numba negative-index wrap-around; compiled-vs-source only bounded (NUMBA_BOUNDSCHECK=1)",
+    "explanation": "index abstraction with auto-cut loops; ~50 contract variants",
+}
+
 ALL = ["C%02d" % i for i in range(1, 21)]
 NOT_APPLICABLE = {
     "C13": "statement about Numba's type inference/lowering and the ctypes binding of SciPy kernels (the translator), not about functions of /repo: no contract on hdc-algo source can establish or refute it; it is the stated assumption of every proof here",
